@@ -25,9 +25,9 @@ var qlens = []int{128, 0, 1, 2}
 
 func init() {
 	vexplore.Register("C02", func(tier string) []*vexplore.Scenario {
-		b, d := 1, 4
+		b, d := 2, 5
 		if tier == "thorough" {
-			b, d = 2, 5
+			b, d = 3, 6
 		}
 		var out []*vexplore.Scenario
 		for _, k := range []struct {
